@@ -633,6 +633,15 @@ def emit_item(out, spec, stats):
         if cur_line is None:
             cur_line = line
         acc += text
+    for e in extra:
+        m = re.match(r'subst\s+"(.*)"\s*=>\s*"(.*)"\s*(#\S+)?$', e)
+        if m:
+            pat = r"\s*".join(re.escape(t.text) for t in tokenize(m.group(1)) if t.kind not in (WS, COMMENT))
+            acc2, n = re.subn(pat, lambda _m: m.group(2), acc)
+            if n == 0:
+                raise LostAnchor(f"item {kind} {name}: subst source {m.group(1)!r} not found")
+            acc = acc2
+            stats.count((m.group(3) or "#N10").lstrip("#"), n)
     out.add(acc, kind="repo", file=relfile, line=sf.line_of(toks[it.kw].start), approx=True)
     out.add("\n", kind="gen")
     text = sf.text[toks[it.kw].start:toks[it.last].end]
